@@ -640,9 +640,9 @@ package lang
 //@   loop 0 invariant own-list: fresh(evaledExprs) && e.evalDepth == old(e.evalDepth)
 //@   init $lastRet = nil
 //@   after Evaluator.evalExpr: $lastRet = ret0
-//@   assert[C08,C15] the-items-are-evaluated-in-list-order-each-once: 0 <= rangeindex && rangeindex < len(exprs) && arg1 == exprs[rangeindex] @ Evaluator.evalExpr
+//@   assert[C08,C15] the-items-are-evaluated-in-list-order-each-once: len(evaledExprs) < len(exprs) && arg1 == exprs[len(evaledExprs)] @ Evaluator.evalExpr
 //@   assert[C08,C15] the-copy-handed-on-is-a-copy-of-the-item-just-evaluated: arg0 == $lastRet @ copyValue
-//@   loop 0 invariant[C08,C15] without-copying-the-cell-just-evaluated-is-handed-on: !copy && rangeindex >= 0 ==> evaledExprs[rangeindex] == $lastRet
+//@   loop 0 invariant[C08,C15] without-copying-the-cell-just-evaluated-is-handed-on: !copy && len(evaledExprs) > 0 ==> evaledExprs[len(evaledExprs) - 1] == $lastRet
 //@   loop 0 invariant[C09] copies-so-far-fresh: copy ==> (forall k int :: 0 <= k && k <= rangeindex ==> fresh(evaledExprs[k]))
 //@   loop 0 invariant protocol: evInv(e, old(e.stackTop)) && len(evaledExprs) == rangeindex + 1 && $itemErr == nil
 
